@@ -7,7 +7,7 @@ PROPS = "Props_C07"
 
 def run(res):
     vlib.proof_step(res, PROPS, ["theories/ConnCases.vo", "theories/RespCases.vo", "theories/StreamCases.vo"])
-    connrun.run_conn(res, ["stream", "term"], with_responder=True, with_streams=True)
+    connrun.run_conn(res, ["stream", "term", "subscript"], with_responder=True, with_streams=True)
 
 
 def replay(res, path):
